@@ -2,6 +2,7 @@ package ysgo
 
 import (
 	"fmt"
+	"math"
 	"reflect"
 	"time"
 
@@ -57,9 +58,18 @@ func waitCommand(args []*variable.Value) <-chan error {
 	if duration.Number == nil {
 		return chanWithImmediateValue(fmt.Errorf("received a duration which was not a number"))
 	}
+	if math.IsNaN(*duration.Number) {
+		return chanWithImmediateValue(fmt.Errorf("received a duration which was not a number"))
+	}
+	// a duration of more nanoseconds than an int64 holds (about 292 years, or an infinity) must not wrap
+	// around into a negative duration, which would end the wait at once
+	sleepDuration := time.Duration(math.MaxInt64)
+	if nanoseconds := *duration.Number * float64(time.Second); nanoseconds < float64(math.MaxInt64) {
+		sleepDuration = time.Duration(nanoseconds)
+	}
 	ch := make(chan error, 1)
 	go func() {
-		time.Sleep(time.Duration(*duration.Number * float64(time.Second)))
+		time.Sleep(sleepDuration)
 		ch <- nil
 	}()
 	return ch
